@@ -88,6 +88,10 @@ def run(ctx):
                          lambda name, prog, res: ("C05/edge:plain-number-seed", "a type recorded in the MIR is inconsistent along an edge (Spec/MirSpec.v C05b)"),
                          mp.plain_reduce_seed_programs(), "plain-number-as-reduce-seed",
                          "xs.reduce(f, 0) with a plain Python number as the initial value", "plain_seed")
+    mp.may_reject_family(ctx, {"C05": mp.on_mir("C05b")},
+                         lambda name, prog, res: ("C05/types:text-variant", "a type recorded in the MIR is incomplete or inconsistent along an edge (Spec/MirSpec.v C05b)"),
+                         mp.text_variant_programs(), "unusual-but-legal-spelling",
+                         "outputs handed over as a generator / iterator / tuple, literals built from Python booleans, keyword-only parameters, a literal as array size", "text_variants")
     mp.api_probe_case(ctx, {"C05b": mp.on_mir("C05b")}, "C05", "public API probe", key_of_api_call)
     if ok_x:
         dis = mp.tie_model(ctx, progs, results)
